@@ -44,10 +44,42 @@ fn run_once(ct: &CircuitText, shots: usize, seed: u64, repr: &str) -> String
 /// with the seed under test.  The result must be the one a fresh object gives.
 fn run_on_used_object(ct: &CircuitText, shots: usize, seed: u64, repr: &str, same_shots: bool, reexecute_first: bool) -> String
 {
+    run_on_used_object_ext(ct, shots, seed, repr, same_shots, reexecute_first, None, None)
+}
+
+/// `other_repr`: the representation the EARLIER run of the same object used (None = the same as the run under test);
+/// `split`: build only the first `k` operations, execute, then add the rest and execute the run under test (the object's
+/// answer must be that of a circuit built in one go).
+fn run_on_used_object_ext(ct: &CircuitText, shots: usize, seed: u64, repr: &str, same_shots: bool, reexecute_first: bool,
+    other_repr: Option<&str>, split: Option<usize>) -> String
+{
     let ctc = ct.clone();
     let repr = repr.to_string();
+    let other_repr = other_repr.map(|s| s.to_string());
     let r = std::panic::catch_unwind(move || {
-        let mut c = match build(&ctc) { Ok(c) => c, Err(e) => return format!("build-{}", show_err(&e).replace(' ', "_")) };
+        let k = split.unwrap_or(ctc.ops.len()).min(ctc.ops.len());
+        let prefix = CircuitText { nq: ctc.nq, nc: ctc.nc, ops: ctc.ops[..k].to_vec() };
+        let mut c = match build(&prefix) { Ok(c) => c, Err(e) => return format!("build-{}", show_err(&e).replace(' ', "_")) };
+        let exec_as = |c: &mut q1tsim::circuit::Circuit, shots: usize, rng: &mut Counting<rand_hc::Hc128Rng>, repr: &str| match repr
+        {
+            "vector" => c.execute_with(shots, rng, q1tsim::circuit::QuStateRepr::vector(ctc.nq, shots)),
+            "stabilizer" => c.execute_with(shots, rng, q1tsim::circuit::QuStateRepr::stabilizer(ctc.nq, shots)),
+            _ => c.execute_with_rng(shots, rng)
+        };
+        if split.is_some() || other_repr.is_some()
+        {
+            let mut other = Counting { inner: rand_hc::Hc128Rng::seed_from_u64(seed ^ 0x9e3779b97f4a7c15), words32: 0, words64: 0, bytes: 0 };
+            let orep = other_repr.clone().unwrap_or_else(|| repr.clone());
+            let _ = c.is_stabilizer_circuit();
+            let _ = exec_as(&mut c, if same_shots { shots } else { shots + 3 }, &mut other, &orep);
+            for op in ctc.ops[k..].iter() { if let Err(e) = add_op(&mut c, op) { return format!("build-{}", show_err(&e).replace(' ', "_")); } }
+            let mut rng = Counting { inner: rand_hc::Hc128Rng::seed_from_u64(seed), words32: 0, words64: 0, bytes: 0 };
+            return match exec_as(&mut c, shots, &mut rng, &repr)
+            {
+                Ok(()) => format!("reg:{} rng:{}/{}/{}", join(&c.cstate().unwrap().to_vec()).replace(' ', ","), rng.words32, rng.words64, rng.bytes),
+                Err(e) => show_err(&e).replace(' ', "_")
+            };
+        }
         let exec = |c: &mut q1tsim::circuit::Circuit, shots: usize, rng: &mut Counting<rand_hc::Hc128Rng>| match repr.as_str()
         {
             "vector" => c.execute_with(shots, rng, q1tsim::circuit::QuStateRepr::vector(ctc.nq, shots)),
@@ -154,6 +186,29 @@ fn main()
         allow_reset_all: true, allow_cond: true, allow_measure_all: true, allow_combinators: true };
     let cfg_s = GenCfg { clifford: true, ..cfg_v };
     let me = std::env::current_exe().unwrap();
+    // a Clifford circuit executed on the automatically chosen representation, then EXTENDED by conditional non-Clifford
+    // gates and measurements only (no unconditional gate afterwards), then executed again: must equal the circuit built in
+    // one go (the choice of representation may not be remembered from the first run)
+    for i in 0..(if thorough() { 200 } else { 40 })
+    {
+        let mut ct = gen_circuit(&cfg_s, &mut rng);
+        let k = ct.ops.len();
+        let q = rng.below(ct.nq as u64) as usize;
+        let cb = rng.below(ct.nc as u64) as usize;
+        ct.ops.push(format!("measure {} {} Z", q, cb));
+        let g = *rng.pick(&["T", "Tdg", "RX 3fe0000000000000", "RZ 3ff0000000000000"]);
+        ct.ops.push(format!("cond 1 {} {} 1 {} {}", cb, rng.below(2), rng.below(ct.nq as u64), g));
+        if rng.coin() { ct.ops.push(format!("cond 1 {} {} 1 {} {}", cb, rng.below(2), rng.below(ct.nq as u64), g)); }
+        let all: Vec<usize> = (0..ct.nq).collect();
+        if ct.nc >= ct.nq { ct.ops.push(format!("measureall {} {} Z", ct.nq, join(&all))); } else { ct.ops.push(format!("measure {} {} Z", q, cb)); }
+        let shots = [3usize, 17, 64][i % 3];
+        let seed = rng.next();
+        let first = run_once(&ct, shots, seed, "auto");
+        let r = run_on_used_object_ext(&ct, shots, seed, "auto", i % 2 == 0, false, None, Some(k));
+        let kind = if first.starts_with("reg:") { "ran" } else { "failed" };
+        out.case(&format!("repro | auto-extended | {} {} | {} | {} | {}", ct.nq, ct.nc, shots, seed, ct.ops.join(" ; ")),
+            &if r == first { format!("same {}", kind) } else { format!("differs used-object-differs(executed-after-{}-ops-then-extended-by-conditional-gates)[{}|{}]", k, first, r) });
+    }
     let nwide = if thorough() { 120 } else { 24 };
     let nreset = if thorough() { 120 } else { 24 };
     for i in 0..ncirc + nwide + nreset
@@ -177,6 +232,19 @@ fn main()
             {
                 let r = run_on_used_object(&ct, shots, seed, repr, *same_shots, *reex);
                 if r != first { verdict += &format!(" used-object-differs(same_shots={},reexecute={})[{}|{}]", same_shots, reex, first, r); break; }
+            }
+            // the earlier run used ANOTHER representation (a caller-chosen state vector before an automatic run, ...)
+            for orep in ["vector", "auto", "stabilizer"].iter()
+            {
+                if *orep == repr { continue; }
+                let r = run_on_used_object_ext(&ct, shots, seed, repr, true, false, Some(orep), None);
+                if r != first { verdict += &format!(" used-object-differs(earlier-run-on={})[{}|{}]", orep, first, r); break; }
+            }
+            // the circuit was executed half-built, then completed
+            for cut in [ct.ops.len() / 2, ct.ops.len().saturating_sub(1)].iter()
+            {
+                let r = run_on_used_object_ext(&ct, shots, seed, repr, true, false, None, Some(*cut));
+                if r != first { verdict += &format!(" used-object-differs(executed-after-{}-ops-then-completed)[{}|{}]", cut, first, r); break; }
             }
         }
         // the same seeded run after FAILED executions of other circuits on this thread
